@@ -670,7 +670,6 @@ func (c *Ctx) scratchField(lhs ast.Expr) string {
 	return fmt.Sprintf("exception %s.%s: codec scratch that no function reachable from the Tree API reads (its only reader, Restore, is never called by the collation tree), so the retained slice is unobservable and bounded to one key", owner.Obj().Name(), field.Name())
 }
 
-
 // assignedAnywhere: v is the target of an assignment or inc/dec in body (its definition as a
 // parameter does not count).
 func assignedAnywhere(info *types.Info, body ast.Node, v *types.Var) bool {
